@@ -2,6 +2,7 @@ package main
 
 import (
 	"fmt"
+	"github.com/johannesboyne/gofakes3"
 	"sort"
 	"strings"
 )
@@ -297,8 +298,43 @@ func runC03(tier string, seed uint64) {
 		}
 		s.end()
 	}
+	c03Unclean("mem")
+	c03Unclean("bolt")
 	sample("key sets: all subsets of size <= 2 of the 18 keys over {a,b,/} (len <= 3, not starting/ending with '/'), seeded subsets of size 3..6, and 6 'rich' sets (a-x a/x a.x; UTF-8 incl. the top of the 3-byte range and 4-byte characters; nested dirs; segments beginning with a dot, a blank, a tilde)")
 	sample("for each set: all 27 prefixes over {a,b,/} of length <= 3 not starting with '/', delimiter none and '/' (and 'b', and the multi-byte characters é and € with an oracle written from the statement, on mem/bolt), V1 or V2; mem runs versioned with delete-marked ghost keys (next to a live key, below it, and behind each delimiter)")
+}
+
+// c03Unclean: on the key-value backends a key is a byte string: "u//v", "u/./w" and "u/../x" are keys of their
+// own next to "u/v", "u/w" and "x", listed under their own names with their own sizes, whether the requests
+// name the bucket in the path or in the Host header
+func c03Unclean(kind string) {
+	for _, host := range []string{"", "base", "host"} {
+		s := newSess("c03", kind, SessOpts{})
+		switch host {
+		case "base":
+			s.h = hostStyle{inner: newServer(s.st.Backend, gofakes3.WithHostBucketBase("s3.example.com")), base: "s3.example.com"}
+		case "host":
+			s.h = hostStyle{inner: newServer(s.st.Backend, gofakes3.WithHostBucket(true)), base: "s3.example.com"}
+		}
+		b := singleBucketName
+		s.MkBucket(b)
+		keys := []string{"u/v", "u//v", "u/./w", "u/w", "u/../x", "x", "u///v"}
+		for i, k := range keys {
+			s.Put(b, k, []byte(strings.Repeat("z", i+1)), nil)
+		}
+		lists := func() {
+			for _, pd := range [][2]string{{"", ""}, {"u", ""}, {"u/", "/"}, {"", "/"}, {"u//", "/"}, {"u/.", ""}} {
+				s.List(ListReq{Bucket: b, Prefix: pd[0], Delim: pd[1], MaxKeys: -1})
+				s.List(ListReq{Bucket: b, Prefix: pd[0], Delim: pd[1], MaxKeys: -1, V2: true})
+			}
+		}
+		lists()
+		s.Delete(b, "u//v")
+		s.Delete(b, "u/./w")
+		lists()
+		nontrivial(kind + "|unclean|" + host)
+		s.end()
+	}
 }
 
 // ---------------------------------------------------------------- C04
